@@ -21,7 +21,7 @@ RULE = (
     "rpc), delete local cache, delete adjacent cache, reload an earlier returned tree}. Quick: a "
     "Hypothesis RuleBasedStateMachine (60 machines x <= 12 steps) plus all histories of length "
     "<= 2 over an 11-operation alphabet; thorough: breadth-first enumeration of ALL histories up "
-    "to length 4 over that alphabet (16104 per product) for a level-1.1 and a level-1.5 product. "
+    "to length 4 over that alphabet (16104 per product) for a level-1.1 ScanSAR-like product (image files differ only in the scan suffix) and a level-1.5 product. "
     "Invariants after every step: the returned tree equals the uncached reference for this "
     "step's rpc; the product directory (listing + sha256) is unchanged except index files made "
     "by cli-create; the user cache dir contains exactly the index files the model predicts "
@@ -43,7 +43,11 @@ N_LINES = 4
 @functools.lru_cache(maxsize=None)
 def base_files(level):
     spec = common.spec_from(
-        {"level": level, "images": [{"lines": N_LINES, "pixels": 3}, {"lines": N_LINES - 1, "pixels": 2}], "vseed": 100 + LEVELS.index(level),
+        {"level": level,
+         # the level-1.1 product is ScanSAR-like: its image files differ only in the scan suffix
+         "images": [dict({"lines": N_LINES, "pixels": 3}, **({"pol": "HH", "scan": "B1"} if level == "1.1" else {})),
+                    dict({"lines": N_LINES - 1, "pixels": 2}, **({"pol": "HH", "scan": "B2"} if level == "1.1" else {}))],
+         "vseed": 100 + LEVELS.index(level),
          "leader": {"map_projection": level != "1.1"}}
     )
     files, info = product.build_product(spec)
